@@ -34,3 +34,8 @@ OBLIGATIONS += [
     ob("c06.f.sk_to_curve25519", "hf_sk_to_curve", ["crypto_sign_ed25519_sk_to_curve25519"], "secret-key conversion uses the same clamped scalar as public-key derivation (the commuting property then rests on the assumed birational map)",
        src="harness/sign.c", assumes=SA, replayable=True, cbmc=["--unwind", "66", "--unwinding-assertions"]),
 ]
+
+OBLIGATIONS.append(ob("c06.f.ph", "hf_ph", ["crypto_sign_ed25519ph_init", "crypto_sign_ed25519ph_update", "crypto_sign_ed25519ph_final_create", "crypto_sign_ed25519ph_final_verify"],
+    "Ed25519ph: the multi-part API signs / verifies the 64-byte SHA-512 pre-hash with the pre-hashed (dom2) flag; verify returns the detached verdict",
+    src="harness/sign_ph.c", defs=["-DPART=0"], replayable=True, assumes=["SHA-512 and the detached sign / verify are logging stubs (their own obligations: c06.f.sign_detached, c06.f.verify_detached)"],
+    cbmc=["--unwind", "66", "--unwinding-assertions", "--object-bits", "18"], bound="values: message length <= 65535"))
